@@ -30,9 +30,16 @@ Modelling decisions
 * ghost fields (never read by a transition's *behaviour*): `Handle.userRefs` (creator's + explicit
   references outstanding), `Handle.threadRef` (the reference held through the library TLS key by the
   thread the handle describes), `Thread.exitArg`, `Handle.written`.
-* `localFree` frees the wrapper only, as the code does (the native key stays registered and its block
-  stays allocated: defect F12 / property C20, not C05); destructors of values stored under such a key
-  therefore still run at thread end.
+* `localFree` (repaired code): `pthread_key_delete` of the published native key, `p_free` of its block, then
+  `p_free` of the wrapper.  Values other threads still hold under that native key are dropped: the key is no
+  longer live, so `threadEnd` runs no destructor for them (documented in `puthread.h`).  The wrapper record keeps
+  its `published` field as a ghost of what it pointed to; every access through a freed wrapper is a fault.
+  `p_uthread_shutdown` (not an event of this machine) frees the library's own key through the same function.
+* the read-back of the TLS slot in `pp_uthread_proxy` / `p_uthread_current` (repair of F10) only matters when
+  the store did not take, i.e. when an allocation inside the lazy key creation failed; allocation failure is
+  outside C05 (property C18).  In this machine a store through a resolved key always takes, so the read-back
+  shows up only in the native-call trace of the driver; the source facts (`proxyReadsBack`,
+  `proxyUnrefsWhenNotStored`, `currentChecksStore`) are obligations checked in `Props/C05.lean`.
 * values: `0` is `NULL`; the library key (key `0`) stores `h + 1` for handle `h`.
 -/
 namespace PV.UThread
@@ -119,6 +126,10 @@ structure State where
   joinLog : List (Nat × Nat × Int) := []
   getLog : List (Nat × Nat × Nat) := []
   curLog : List (Nat × Nat) := []
+  /-- `pthread_key_delete` calls (native key ids) in order -/
+  keyDelLog : List Nat := []
+  /-- `p_free` of native-key blocks in order -/
+  blockFreeLog : List Nat := []
 
 /-- state after `p_libsys_init`: the initial thread runs, the library key wrapper exists (its native
     key does not: it is created lazily like every other) -/
@@ -340,11 +351,20 @@ def localNew (s : State) (a : Nat) (notif : Bool) : Except Err State :=
   if ¬ canAct s a then .error .notEnabled else
   .ok { s with nK := s.nK + 1, key := upd s.key s.nK { notifier := notif } }
 
-/-- `p_uthread_local_free`: `p_free (key)` — the wrapper only -/
+/-- `p_uthread_local_free`: `if (key->key != NULL) { pthread_key_delete (*key->key); p_free (key->key); }`
+    then `p_free (key)` -/
 def localFree (s : State) (a : Nat) (k : Nat) : Except Err State :=
   if ¬ canAct s a ∨ k = 0 ∨ ¬ k < s.nK then .error .notEnabled else
   if (s.key k).wrapperFreed then .error (.keyUseAfterFree k) else
-  .ok { s with key := upd s.key k { s.key k with wrapperFreed := true } }
+  match (s.key k).published with
+  | none => .ok { s with key := upd s.key k { s.key k with wrapperFreed := true } }
+  | some n =>
+    .ok { s with
+      nkey := upd s.nkey n { s.nkey n with
+        live := (s.nkey n).live && !localFreeDeletesKey, blockFreed := (s.nkey n).blockFreed || localFreeFreesBlock }
+      keyDelLog := s.keyDelLog ++ (if localFreeDeletesKey then [n] else [])
+      blockFreeLog := s.blockFreeLog ++ (if localFreeFreesBlock then [n] else [])
+      key := upd s.key k { s.key k with wrapperFreed := true } }
 
 /-- slow path of `pp_uthread_get_tls_key`, first atomic step: `p_atomic_pointer_get` saw NULL;
     `p_malloc0 (sizeof (pthread_key_t))`; `pthread_key_create (thread_key, key->free_func)`.
@@ -379,6 +399,8 @@ def keyCas (s : State) (t : Nat) (k : Nat) : Except Err State :=
       .ok { s with
         nkey := upd s.nkey n { s.nkey n with
           live := !casLoserDeletesKey, blockFreed := casLoserFreesBlock }
+        keyDelLog := s.keyDelLog ++ (if casLoserDeletesKey then [n] else [])
+        blockFreeLog := s.blockFreeLog ++ (if casLoserFreesBlock then [n] else [])
         key := upd s.key k { s.key k with losers := (s.key k).losers ++ [n] }
         thr := upd s.thr t { s.thr t with pend := none } }
 
